@@ -139,6 +139,9 @@ def run_state(state):
                         if not judged:
                             key = "%s:%s" % (cname, "served" if status < 400 else "refused")
                             open_notes[key] = open_notes.get(key, 0) + 1
+                            if before != after:
+                                # a request that was served changed the state the remaining requests assume: rebuild it
+                                app, client, ids, sd = build_state(state, reset(workdir))
                             continue
                         case = {"state": state, "rule": rule, "method": method, "id": idk, "body": bk, "credential": cname}
                         if before != after:
